@@ -296,3 +296,14 @@ def structured_2x2(rng, cls=None):
         u, cls = haar_2x2(rng), "haar"
     assert np.allclose(u @ u.conj().T, np.eye(2), atol=1e-12)
     return u, cls
+
+
+def scribble_spaces(st, n):
+    """What a caller may do with tensors it was handed: re-use them as scratch memory.  Every enumerated space up to n sites is
+    requested once more and overwritten; nothing the library computes later (for this or any other model) may depend on it."""
+    for k in range(1, n + 1):
+        try:
+            st.generate_hilbert_space(k).fill_(0.5)
+            st.subspace_vector(0, size=k).fill_(0.5)
+        except Exception:  # noqa: BLE001  (size limit etc.: not this helper's business)
+            pass
